@@ -96,7 +96,15 @@ type EchPlan struct {
 func recList(id int) []byte    { return echList(id, fmt.Sprintf("front%d.example", id)) }
 func callerList(id int) []byte { return echList(id, "caller-front.example") }
 func retryList(ip string, call int) []byte {
-	return echList(int(core.Mix(7, ip, call)%200)+20, "retry-front.example")
+	l := echList(int(core.Mix(7, ip, call)%200)+20, "retry-front.example")
+	if core.Mix(11, ip, call)%3 == 0 {
+		// servers in the middle of a protocol transition also list a config of a
+		// version this client does not know; clients skip such entries
+		unk := []byte{0xfe, 0x0a, 0x00, 0x05, 1, 2, 3, 4, 5}
+		body := append(append([]byte(nil), unk...), l[2:]...)
+		l = append([]byte{byte(len(body) >> 8), byte(len(body))}, body...)
+	}
+	return l
 }
 
 // ---------------------------------------------------------------------------
@@ -522,6 +530,10 @@ func executeEch(t *testing.T, prop string, seed uint64, p *EchPlan) *core.Result
 		if p.CallerECH > 0 {
 			caller.EncryptedClientHelloConfigList = callerList(p.CallerECH)
 		}
+		if p.CallerECH < 0 {
+			// a list that is there but holds nothing (an empty setting decoded)
+			caller.EncryptedClientHelloConfigList = []byte{}
+		}
 		before = &tls.Config{ServerName: caller.ServerName, NextProtos: slices.Clone(caller.NextProtos), MinVersion: caller.MinVersion,
 			EncryptedClientHelloConfigList: slices.Clone(caller.EncryptedClientHelloConfigList)}
 	}
@@ -750,6 +762,11 @@ func judgeEch(res *core.Result, prop string, p *EchPlan, es *echState, caller, b
 			if c.listNil || !bytes.Equal(c.list, prev.retry) {
 				res.Fail(prop, "retry", "retry not made with exactly the server's retry configs", "address %s: list %s, retry configs %s", c.addr, listTag(c.list, c.listNil), listTag(prev.retry, false))
 			}
+		case p.CallerECH < 0 && !p.CallerNil:
+			// an empty list from the caller: the statement does not say whether
+			// that counts as supplied; only the RequireECH rule above applies
+			src = "caller-empty"
+			res.Probe("caller_empty_list")
 		case cl != nil:
 			src = "caller"
 			if c.listNil || !bytes.Equal(c.list, cl) {
@@ -860,6 +877,9 @@ func judgeEch(res *core.Result, prop string, p *EchPlan, es *echState, caller, b
 	}
 
 	// --- RequireECH refusals: addresses the model says have no list, never dialled
+	if p.RequireECH && p.CallerECH < 0 && !p.CallerNil {
+		refusalPossible = true
+	}
 	if p.RequireECH && cl == nil && p.PublicName == "" {
 		for _, m := range models {
 			for _, owner := range m.own {
